@@ -8,7 +8,7 @@ for p in sorted(glob.glob('/verif/seeded/*/meta.json')):
     rows.append((name, m))
 out = ["# Seeded breaking changes and the checks that catch them", "",
        "Every change below (except the rows marked AUTHOR-MADE) was produced by a separate agent that saw only the text of one property and a",
-       "scratch worktree of OxiDD (rows whose note says \"round 2\" come from a later, smaller round whose prompts also named areas to aim at). For each one I confirmed in a scratch worktree that OxiDD's own test suite",
+       "scratch worktree of OxiDD (rows whose note says \"round 2\" come from a later, smaller round whose prompts also named areas to aim at; \"round 3\" rows from a third round of sixteen changes for C02, C04, C05, C08, C09, C12, C13, C20 whose prompts named areas not yet hit and the mechanisms of round 1 to avoid). For each one I confirmed in a scratch worktree that OxiDD's own test suite",
        "still passes with the change (`cargo test --workspace`, 109 tests incl. doc tests) and that the agent's",
        "demonstration fails with the change and passes without it. `bin/seeded_run <name> <checks>` then applies",
        "`patch.diff` to /repo, runs the quick tier of the listed checks, replays every reported replay file with",
